@@ -9,6 +9,8 @@ import (
 	"sync/atomic"
 	"time"
 
+	"github.com/btcsuite/btcd/wire/v2"
+	"github.com/lightninglabs/neutrino"
 	"verifharness/tr"
 )
 
@@ -96,6 +98,26 @@ func scenariosC04(rng *rand.Rand, thorough bool) []Scenario {
 	// false checkpoint, true filter headers: the client can tell nobody apart and never gets past it
 	add(Scenario{Name: "liarCFCheckpt-only", Len: 1000 + L(), Barrier: true, Deadline: 4 * time.Second, Script: []Event{sleep(300)},
 		Peers: []Behaviour{honest(), {Kind: "liarCFCheckpt", H: 0, Variant: "only"}}})
+	// --- the sync peer lies while an honest candidate is ALREADY connected, and nobody else joins ---
+	{
+		l := L()
+		add(Scenario{Name: "liarSync-pow-midbatch", Len: l, Barrier: true, NoRedial: true, Deadline: 4 * time.Second, Script: []Event{sync, grow(1), sync},
+			Peers: []Behaviour{{Kind: "liarHeaders", H: 3 + rng.Intn(l-4), Variant: "pow"}, honest()}})
+		l = L()
+		add(Scenario{Name: "liarSync-unlinked-first", Len: l, Barrier: true, NoRedial: true, Deadline: 4 * time.Second, Script: []Event{sync, grow(1), sync},
+			Peers: []Behaviour{{Kind: "liarHeaders", H: 2, Variant: "unlinked"}, honest()}})
+		// a block checkpoint below the lie: the first batch (up to the checkpoint) is accepted, the lie is in the second
+		l = L()
+		c := 10 + rng.Intn(l-20)
+		add(Scenario{Name: "liarSync-after-checkpoint", Len: l, Barrier: true, NoRedial: true, Deadline: 4 * time.Second, Checkpts: []int{c}, Script: []Event{sync, grow(1), sync},
+			Peers: []Behaviour{{Kind: "liarHeaders", H: c + 1 + rng.Intn(l-c-1), Variant: "pow"}, honest()}})
+		// the sync peer is on a valid branch that does not contain the checkpointed block
+		l = L()
+		d := 6 + rng.Intn(4)
+		add(Scenario{Name: "liarSync-checkpoint-mismatch", Len: l, Barrier: true, NoRedial: true, Deadline: 4 * time.Second, Checkpts: []int{l - d + 2 + rng.Intn(3)},
+			Script: []Event{sync, grow(1), sync},
+			Peers:  []Behaviour{{Kind: "lighterFork", H: d, N: d - 1}, honest()}})
+	}
 	return out
 }
 
@@ -208,6 +230,12 @@ func DriveC04(t *tr.W, thorough bool) {
 		r := RunScenario(sc, rng.Int63())
 		r.flush(t)
 	}
+	// best-effort end-to-end probe of the done-event / last-headers race (the deterministic version of both
+	// orders is the bm-sync driver): on request only in the quick tier, always in the thorough tier
+	if strings.HasPrefix(os.Getenv("NETSIM_ONLY"), "late-headers") {
+		RunLateHeaders(rng.Int63(), true).flush(t)
+		RunLateHeaders(rng.Int63(), false).flush(t)
+	}
 }
 
 // driveC04Thorough: the quick set under three parameter seeds, random mixes,
@@ -256,6 +284,82 @@ func driveC04Thorough(t *tr.W) {
 	for _, j := range jobs {
 		j.out.flush(t)
 	}
+	for k := 0; k < 2; k++ {
+		RunLateHeaders(slow.Int63(), true).flush(t)
+		RunLateHeaders(slow.Int63(), false).flush(t)
+	}
+}
+
+// RunLateHeaders: the only peer answers the first getheaders with one full batch
+// and is dropped by the client (ServerPeer.Disconnect, what BanPeer and the
+// handlers do) at the moment the batch has left the wire: its done-peer event and
+// the batch reach the block handler from two goroutines, in either order
+// (immediate: the disconnect is issued the instant the write returns; otherwise
+// 50 ms later, so that the batch is certainly handled first).  Afterwards an
+// honest peer connects.  Whatever the order, the client must end on the honest
+// tip with a connected sync peer.
+func RunLateHeaders(seed int64, immediate bool) *rec {
+	t := &rec{stats: map[string]int{}}
+	rng := rand.New(rand.NewSource(seed))
+	l := 2000 + 20 + rng.Intn(40)
+	name := map[bool]string{true: "late-headers-disconnect-at-once", false: "late-headers-disconnect-later"}[immediate]
+	// peer 0 serves the honest chain but is dropped on purpose: it is not one of the peers that must stay connected
+	sc := Scenario{Name: name, Len: l, ManualGate: true, NoRedial: true, Barrier: true, Deadline: 6 * time.Second,
+		Peers: []Behaviour{{Kind: "disconnectAt", H: 1 << 30}, honest()}}
+	t.header = fmt.Sprintf("c04 %s len %d npeers %d", sc.Name, sc.Len, len(sc.Peers))
+	s, err := New(sc, rng, t.Op)
+	if err != nil {
+		t.Op("setup", "err "+err.Error())
+		return t
+	}
+	defer s.Cleanup()
+	for i, p := range s.Peers {
+		t.Op(fmt.Sprintf("peer %d %s", i, p.B), "-")
+	}
+	// peer 0 holds its headers answer until we have got hold of the client's handle of it
+	hold := make(chan struct{})
+	s.Peers[0].barrier = hold
+	var once sync.Once
+	var sp0 *neutrino.ServerPeer
+	s.Peers[0].AfterWrite = func(m wire.Message) {
+		if h, ok := m.(*wire.MsgHeaders); ok && len(h.Headers) > 0 {
+			once.Do(func() {
+				if !immediate {
+					time.Sleep(50 * time.Millisecond)
+				}
+				sp0.Disconnect()
+			})
+		}
+	}
+	if err := s.Start(); err != nil {
+		t.Op("start", "err "+err.Error())
+		return t
+	}
+	s.waitFor(3*time.Second, func(o Obs) bool { return contains(o.Conn, 0) })
+	for _, sp := range s.peersTimed() {
+		if sp.Addr() == s.Peers[0].Addr {
+			sp0 = sp
+		}
+	}
+	if sp0 == nil {
+		t.Op("setup", "err peer 0 did not connect")
+		s.Stop()
+		return t
+	}
+	close(hold)
+	s.waitFor(3*time.Second, func(o Obs) bool { return !contains(o.Conn, 0) })
+	t.Op("dropped 0", "-")
+	s.waitFor(200*time.Millisecond, func(Obs) bool { return false })
+	s.OpenGate(1)
+	s.Run()
+	if d := s.Stop(); d < 0 {
+		t.Op("stop", "HANG")
+	} else {
+		t.Op("stop", "ok")
+	}
+	t.Hit("scenarios")
+	t.Add("samples", s.nsamp)
+	return t
 }
 
 // RunScenario runs one scenario and returns its trace case.
